@@ -2524,7 +2524,11 @@ def parse_item(line_tokens):
         return CIWTypeInstruction(line, name, rd, imm)
     # cl-type instructions (all are base offset insts)
     elif head in CL_TYPE_INSTRUCTIONS:
-        if tokens[3] == '(':
+        if tokens[2].startswith('%') and tokens[-3] == '(' and tokens[-1] == ')' and len(tokens) > 6:
+            # offset(base) whose offset is a modifier with parens of its own: c.lw rd, %lo(symbol)(rs1)
+            name, rd, *imm = tokens[:-3]
+            rs1 = tokens[-2]
+        elif tokens[3] == '(':
             name, rd, offset, _, rs1, _ = tokens
             imm = [offset]
         else:
@@ -2534,7 +2538,11 @@ def parse_item(line_tokens):
         return CLTypeInstruction(line, name, rd, rs1, imm)
     # cs-type instructions (all are base offset insts)
     elif head in CS_TYPE_INSTRUCTIONS:
-        if tokens[3] == '(':
+        if tokens[2].startswith('%') and tokens[-3] == '(' and tokens[-1] == ')' and len(tokens) > 6:
+            # offset(base) whose offset is a modifier with parens of its own: c.sw rs2, %lo(symbol)(rs1)
+            name, rs2, *imm = tokens[:-3]
+            rs1 = tokens[-2]
+        elif tokens[3] == '(':
             name, rs2, offset, _, rs1, _ = tokens
             imm = [offset]
         else:
